@@ -69,6 +69,11 @@ PATTERNS['bracket_names'] = [
          extra=['Bvec[1]']),
     dict(its0=rng0(8, 12, 2), its1=rng0(8, 12, 1), chk=[],
          extra=['Bvec[0]', 'Bvec[2]', 'phi'])]
+# a restart that died before its first output: no data, no checkpoint
+PATTERNS['dead_restart'] = [
+    dict(its0=rng0(0, 4, 2), its1=rng0(0, 4, 1), chk=[4]),
+    dict(empty=True, chk=[]),
+    dict(its0=rng0(4, 8, 2), its1=rng0(4, 8, 1), chk=[])]
 PATTERNS['contained_names'] = [
     dict(its0=rng0(0, 8, 2), its1=rng0(0, 8, 1), chk=[8],
          extra=['K', 'Kxx', 'Kxy'], only=True),
@@ -146,7 +151,7 @@ def truth_restart(spec, r):
         for rl, its in rs['its'].items():
             out[f'rl = {rl}'] = ([its[0], its[-1], its[1] - its[0]]
                                  if len(its) > 1 else [its[0]])
-    else:
+    elif rs['checkpoints']:
         ck = sorted(rs['checkpoints'])
         out['its available'] = [ck[0], ck[-1]]
     out['checkpoints'] = sorted(set(rs.get('checkpoints', [])))
@@ -628,6 +633,7 @@ def plans(tier):
         cfgs.append((('sim', 'bracket_names', lay, 1), 'full', 3))
     for lay in [(True, True), (True, False), (False, False)]:
         cfgs.append((('sim', 'contained_names', lay, 1), 'full', 3))
+    cfgs.append((('sim', 'dead_restart', lay0, 2), 'full', 3))
     cfgs.append((('sim', 'three+noise', lay0, 2), 'full', 3))
     cfgs.append((('sim', 'singles+noise', (True, True), 1), 'full', 3))
     if tier == 'thorough':
